@@ -317,12 +317,13 @@ def removeAll (m : MFS) (p : Path) : MFS × Except Err Unit :=
 def rename (m : MFS) (o n : Path) : MFS × Except Err Unit :=
   let rn := namei m n false
   let ro := namei m o false
-  -- Go's pre-check: an existing directory target is refused
+  -- Go's pre-check: an existing directory target is refused — unless the two names differ as
+  -- strings and denote the same entry (`!SameFile`), which rename(2) then accepts as a no-op
   let pre : Option Err :=
     match rn with
-    | .found _ (.dir _) =>
+    | .found kn (.dir _) =>
       (match ro with
-       | .found _ _ => some .exist
+       | .found ko _ => if ko = kn ∧ o ≠ n then none else some .exist
        | .missing _ _ => some .notExist
        | .err e => some e)
     | _ => none
